@@ -610,6 +610,7 @@ class ExecuteDryLint:
 
 # ------------------------------------------------------------------------------------------ all 20 executors: shape
 import ast as _ast  # noqa: E402
+ast_ = _ast
 import glob as _glob  # noqa: E402
 import os as _os  # noqa: E402
 
@@ -834,3 +835,265 @@ def _os_path_pred(name, ufname):
 for _n, _u in (("os.path.exists", "uf.fs_exists"), ("os.path.lexists", "uf.fs_lexists"), ("os.path.isfile", "uf.fs_is_file"),
                ("os.path.isdir", "uf.fs_is_dir")):
     EXTERNALS.setdefault(_n, _os_path_pred(_n, _u))
+
+
+# ------------------------------------------------------------------------------------------ Violation.file_path is text at every producer
+PRODUCER_CALLS = ("Violation", "ViolationInfo", "build_violation_from_params", "build_from_params")
+
+
+def _evidently_text(e, fn, classes):
+    """The expression is a str by construction: str(...), a literal / f-string, a conditional or `or` of such, a parameter
+    of the enclosing function annotated `str`, or `<param>.file_path` where the parameter's annotated class declares
+    `file_path: str`."""
+    if isinstance(e, ast_.Constant):
+        return isinstance(e.value, str)
+    if isinstance(e, ast_.JoinedStr):
+        return True
+    if isinstance(e, ast_.Call) and isinstance(e.func, ast_.Name) and e.func.id == "str":
+        return True
+    if isinstance(e, ast_.IfExp):
+        return _evidently_text(e.body, fn, classes) and _evidently_text(e.orelse, fn, classes)
+    if isinstance(e, ast_.BoolOp) and isinstance(e.op, ast_.Or):
+        return all(_evidently_text(v, fn, classes) for v in e.values)
+    params = {a.arg: a.annotation for a in (fn.args.posonlyargs + fn.args.args + fn.args.kwonlyargs)} if fn is not None else {}
+    if isinstance(e, ast_.Name) and e.id in params and params[e.id] is not None:
+        return ast_.unparse(params[e.id]) == "str"
+    if isinstance(e, ast_.Name) and fn is not None and e.id not in params:
+        # a local bound exactly once, to an expression that is evidently text
+        binds = [n for n in ast_.walk(fn) if isinstance(n, ast_.Name) and n.id == e.id and isinstance(n.ctx, ast_.Store)]
+        assigns = [a for a in ast_.walk(fn) if isinstance(a, ast_.Assign) and len(a.targets) == 1
+                   and isinstance(a.targets[0], ast_.Name) and a.targets[0].id == e.id]
+        return len(binds) == 1 and len(assigns) == 1 and _evidently_text(assigns[0].value, fn, classes)
+    if isinstance(e, ast_.Attribute) and e.attr == "file_path" and isinstance(e.value, ast_.Name) and e.value.id in params \
+            and params[e.value.id] is not None:
+        return classes.get(ast_.unparse(params[e.value.id]).strip('"')) == "str"
+    return False
+
+
+@custom("c06-violation-file-path-is-text", props=["C06"])
+def c06_file_path_is_text(ctx):
+    """`Violation.file_path` is declared `str` (src/core/types.py) and the three renderers rely on it in different ways
+    (text / JSON stringify it, SARIF passes it to the codec): the renderings can only agree -- and SARIF can only be
+    produced at all -- if every site that builds a violation passes TEXT. Structural check of every construction site
+    under src/ (Violation(...), ViolationInfo(...), build_violation_from_params(...), build_from_params(...)): the
+    file_path argument is evidently a str (see _evidently_text). One obligation per site."""
+    repo = ctx["repo"]
+    trees, classes = [], {}
+    for path in sorted(_glob.glob(_os.path.join(repo, "src", "**", "*.py"), recursive=True)):
+        tree = ast_.parse(open(path, encoding="utf-8").read())
+        trees.append((_os.path.relpath(path, repo), tree))
+        for c in ast_.walk(tree):
+            if isinstance(c, ast_.ClassDef):
+                for st in c.body:
+                    if isinstance(st, ast_.AnnAssign) and isinstance(st.target, ast_.Name) and st.target.id == "file_path":
+                        classes[c.name] = ast_.unparse(st.annotation)
+    obs = []
+    for rel, tree in trees:
+        funcs = [f for f in ast_.walk(tree) if isinstance(f, (ast_.FunctionDef, ast_.AsyncFunctionDef))]
+        for n in ast_.walk(tree):
+            if not (isinstance(n, ast_.Call) and ast_.unparse(n.func).split(".")[-1] in PRODUCER_CALLS):
+                continue
+            kw = [k for k in n.keywords if k.arg == "file_path"]
+            if not kw:
+                continue
+            enclosing = [f for f in funcs if f.lineno <= n.lineno <= max(getattr(f, "end_lineno", f.lineno), f.lineno)]
+            fn = max(enclosing, key=lambda f: f.lineno) if enclosing else None
+            if rel == "src/core/types.py" and fn is not None and fn.name == "from_dict":
+                continue  # rebuilds a violation from the dict of an existing one (C07: field by field)
+            ok = _evidently_text(kw[0].value, fn, classes)
+            obs.append({"name": f"c06-violation-file-path-is-text/{rel}:{fn.name if fn else '<module>'}:{ast_.unparse(n.func)}@{len([o for o in obs if o['name'].startswith(f'c06-violation-file-path-is-text/{rel}:')])}",
+                        "kind": "structural", "solver": "ast", "ms": 0.0, "verdict": "discharged" if ok else "refuted",
+                        "note": "" if ok else f"line {n.lineno}: file_path={ast_.unparse(kw[0].value)} is not evidently a str",
+                        "model_inputs": {"site": f"{rel}:{n.lineno}", "file_path": ast_.unparse(kw[0].value)} if not ok else None,
+                        "witness_confirmed": not ok})
+    obs.append({"name": "c06-violation-file-path-is-text/sites-found", "kind": "structural", "solver": "ast", "ms": 0.0,
+                "verdict": "discharged" if len(obs) >= 40 else "refuted", "note": f"{len(obs)} construction sites"})
+    return obs
+
+
+# ------------------------------------------------------------------------------------------ bounded differential at the observation point
+_RENDERINGS = r'''
+import json, os, sys, tempfile, shutil, logging, re, collections
+sys.path.insert(0, os.environ["VERIF_REPO"])
+logging.disable(logging.CRITICAL)
+from pathlib import Path
+from click.testing import CliRunner
+from src.cli.main import cli
+import src.cli.linters  # noqa: F401
+
+PY = """import re
+
+
+def price(quantity):
+    print("price", quantity)
+    if quantity > 3:
+        for unit in range(quantity):
+            if unit % 2:
+                while unit:
+                    if unit > 7:
+                        return unit * 4711
+                    unit -= 1
+    return quantity * 1234 + 5678
+
+
+def join(items):
+    out = ""
+    for item in items:
+        out += str(item)
+        if re.match("a+", out):
+            continue
+    return out
+
+
+class Inventory:
+    def __init__(self):
+        self._name = "x"
+
+    def get_name(self):
+        return self._name
+""" + "".join(f"\n    def operation_{i}(self, value):\n        return value + {100 + i}\n" for i in range(9))
+TS = """export function price(quantity: number): number {
+  console.log("price", quantity);
+  if (quantity > 3) {
+    for (let unit = 0; unit < quantity; unit++) {
+      if (unit % 2) {
+        while (unit) {
+          if (unit > 7) { return unit * 4711; }
+          unit -= 1;
+        }
+      }
+    }
+  }
+  return quantity * 1234 + 5678;
+}
+"""
+RS = """use std::fs;
+
+async fn load(names: Vec<String>) -> String {
+    let mut out = String::new();
+    for name in names.iter() {
+        let copy = name.clone();
+        let text = fs::read_to_string(copy).unwrap();
+        out.push_str(&text.clone().clone());
+    }
+    out
+}
+"""
+BROKEN = "class Half:\n    def add(self, item:\n        return 1\n"
+
+def run(args):
+    try:
+        runner = CliRunner(mix_stderr=False)
+    except TypeError:
+        runner = CliRunner()
+    r = runner.invoke(cli, args)
+    out = r.stdout if hasattr(r, "stdout") else r.output
+    return r.exit_code, out
+
+def first_json(out):
+    i = out.find("{")
+    return json.loads(out[i:]) if i >= 0 else None
+
+bad, n = [], 0
+tmp = Path(tempfile.mkdtemp(prefix="c06render_"))
+try:
+    (tmp / ".git").mkdir()
+    for rel, content in {"pkg/shop.py": PY, "pkg/broken.py": BROKEN, "web/shop.ts": TS, "svc/load.rs": RS,
+                         "café/mod é 'q'.py": PY.replace("price", "prïce")}.items():
+        p = tmp / rel
+        p.parent.mkdir(parents=True, exist_ok=True)
+        p.write_text(content, encoding="utf-8")
+    (tmp / "cfg.yaml").write_text("dry:\n  enabled: true\n  min_duplicate_lines: 3\n  cache_enabled: false\nstringly-typed:\n  enabled: true\n", encoding="utf-8")
+    commands = sorted(name for name, cmd in cli.commands.items()
+                      if any(getattr(p, "name", "") == "format" for p in cmd.params) and any(getattr(p, "name", "") == "paths" for p in cmd.params))
+    scenarios = [("project", lambda c: [c, "--config", str(tmp / "cfg.yaml")], [str(tmp)]),
+                 ("missing path", lambda c: [c], [str(tmp / "no-such-dir")]),
+                 ("missing config", lambda c: [c, "--config", str(tmp / "no-such.yaml")], [str(tmp / "pkg")])]
+    for cmd in commands:
+        for label, head, paths in scenarios:
+            n += 1
+            res = {f: run(head(cmd) + ["--format", f] + paths) for f in ("text", "json", "sarif")}
+            codes = {f: res[f][0] for f in res}
+            where = {"command": cmd, "scenario": label}
+            if len(set(codes.values())) != 1 or codes["json"] not in (0, 1, 2):
+                bad.append(dict(where, problem="exit codes differ between the formats (or are not 0/1/2)", codes=codes))
+                continue
+            code = codes["json"]
+            if label != "project":
+                if code != 2:
+                    bad.append(dict(where, problem="usage error does not exit 2", codes=codes))
+                continue
+            if code == 2:
+                bad.append(dict(where, problem="a lintable project cannot be linted (exit 2)", output=res["json"][1][-200:]))
+                continue
+            try:
+                j, s = first_json(res["json"][1]), first_json(res["sarif"][1])
+                jv = j["violations"]
+                run0 = s["runs"][0]
+                sv = run0["results"]
+                rules = [r["id"] for r in run0["tool"]["driver"]["rules"]]
+            except Exception as e:  # noqa
+                bad.append(dict(where, problem=f"a rendering is not a well-formed document: {e!r}"))
+                continue
+            jm = collections.Counter((v["rule_id"], v["file_path"], v["line"], v["column"], v["message"]) for v in jv)
+            sm = collections.Counter((r["ruleId"], r["locations"][0]["physicalLocation"]["artifactLocation"]["uri"],
+                                      r["locations"][0]["physicalLocation"]["region"]["startLine"],
+                                      r["locations"][0]["physicalLocation"]["region"]["startColumn"] - 1, r["message"]["text"]) for r in sv)
+            text = res["text"][1]
+            m = re.search(r"Found (\d+) violation\(s\)", text)
+            tn = int(m.group(1)) if m else (0 if "No violations found" in text else -1)
+            probs = []
+            if j["total"] != len(jv):
+                probs.append(f"JSON total {j['total']} != {len(jv)} listed")
+            if (code == 1) != (len(jv) > 0):
+                probs.append(f"exit code {code} with {len(jv)} violations")
+            if jm != sm:
+                probs.append(f"JSON and SARIF list different violations ({len(jv)} vs {len(sv)})")
+            if tn != len(jv) or text.count("\n    [ERROR] ") != len(jv):
+                probs.append(f"text shows {tn} / {text.count(chr(10) + '    [ERROR] ')} violations, JSON {len(jv)}")
+            if s.get("version") != "2.1.0" or len(set(rules)) != len(rules) or not {r["ruleId"] for r in sv} <= set(rules):
+                probs.append("SARIF: version / rule declarations")
+            if any(r["locations"][0]["physicalLocation"]["region"]["startColumn"] < 1 for r in sv):
+                probs.append("SARIF: startColumn < 1")
+            if probs:
+                bad.append(dict(where, problem="; ".join(probs)))
+finally:
+    shutil.rmtree(tmp, ignore_errors=True)
+print("RESULT=" + json.dumps({"cases": n, "commands": len(commands), "bad": bad[:12]}))
+'''
+
+
+@custom("c06-renderings-agree-bounded", props=["C06"])
+def c06_renderings_bounded(ctx):
+    """BOUNDED NATIVE DIFFERENTIAL at the property's observation point (not a proof; listed under `bounded`): every
+    linter command of the real CLI is run with --format text / json / sarif on one generated multi-language project
+    (Python incl. a file that does not parse, TypeScript, Rust, a path with non-ASCII characters, spaces and quotes;
+    DRY and stringly-typed switched on) and on two usage errors (missing path, missing --config). Oracle from the
+    property text only: the three exit codes are equal and in {0, 1, 2}; 1 iff violations are listed; usage errors
+    give 2; JSON total == number listed; JSON and SARIF list the same multiset of (rule id, file, line, column,
+    message); the text rendering shows as many blocks; SARIF is 2.1.0 with unique rule ids covering every result and
+    1-based columns."""
+    import json
+    import subprocess
+    import sys
+    import time
+    t0 = time.time()
+    p = subprocess.run([sys.executable, "-c", _RENDERINGS], capture_output=True, text=True, timeout=900,
+                       env=dict(_os.environ, VERIF_REPO=ctx["repo"], PYTHONWARNINGS="ignore"), cwd="/tmp")
+    res = None
+    for line in p.stdout.splitlines():
+        if line.startswith("RESULT="):
+            res = json.loads(line[7:])
+    name = "c06-renderings-agree-bounded"
+    if res is None:
+        return [{"name": name, "kind": "bounded", "verdict": "refuted", "tool": "cpython differential (click CliRunner)", "budget": "-",
+                 "cases": 0, "note": "the differential run failed: " + (p.stderr or p.stdout)[-600:], "witness_confirmed": True,
+                 "model_inputs": {"stderr": (p.stderr or "")[-1500:]}, "ms": round((time.time() - t0) * 1000)}]
+    bad = res["bad"]
+    if res["commands"] < 15:
+        bad = bad + [{"problem": f"only {res['commands']} linter commands found"}]
+    return [{"name": name, "kind": "bounded", "verdict": "passed" if not bad else "refuted",
+             "tool": "cpython differential (click CliRunner)", "cases": res["cases"],
+             "budget": f"{res['commands']} commands x 3 formats x (1 project + 2 usage errors)",
+             "note": "" if not bad else f"{bad[:2]}", "witness_confirmed": bool(bad),
+             "model_inputs": {"disagreements": bad} if bad else None, "ms": round((time.time() - t0) * 1000)}]
